@@ -92,7 +92,7 @@ def run_events(chk, tmp):
         dist["directed"] += 1
         dist["events"] += nev
         shutil.rmtree(world.out, ignore_errors=True)
-    n = 110 if chk.tier == "quick" else 1500
+    n = 110 if chk.tier == "quick" else 4000
     for i in range(n):
         kind = rng.choice(["real", "hand", "mixed", "mixed"])
         nfiles = rng.choice([1, 2, 2, 3, 4, 5, 6])
@@ -139,7 +139,7 @@ def run_events_multiprocess(chk, tmp):
     """Several real processes write events concurrently through log_event, each to its own file."""
     cmp_ = _events_cmp("c20_events_mp")
     ctx = multiprocessing.get_context("fork")
-    rounds = 2 if chk.tier == "quick" else 12
+    rounds = 2 if chk.tier == "quick" else 20
     total = 0
     for r in range(rounds):
         out = os.path.join(tmp, f"mp_{r}")
@@ -169,7 +169,7 @@ def run_events_multiprocess(chk, tmp):
 
 def run_aggregation(chk, tmp):
     cmp_ = core.CoqCompare("c20_aggr", rd.IMPORTS, rd.AGG_FN, rd.AGG_EQB, rd.AGG_IN, rd.AGG_OUT, shard=60)
-    n = 40 if chk.tier == "quick" else 500
+    n = 40 if chk.tier == "quick" else 1200
     nt = 0
     for i in range(n):
         out = os.path.join(tmp, f"ag_{i}")
@@ -185,6 +185,10 @@ def run_aggregation(chk, tmp):
     probe = rd.race_probe(out)
     shutil.rmtree(out, ignore_errors=True)
     chk.notes.setdefault("observations", {})["summary_consolidated_before_node_aggregation"] = probe
+    chk.oblige("probe: a summary consolidated before the node aggregated its job event files behaves as the model "
+               "(Example c20_ex_consolidation_before_aggregation: the job's event is in the node file, not in the summary)",
+               probe["job_event_in_summary"] is False and probe["node_file_after_aggregation"] == [probe["node_event_id"], probe["job_event_id"]],
+               json.dumps(probe)[:600])
     sig = "events-consolidated-before-node-aggregation"
     if not probe["job_event_in_summary"] and any(k.get("property") == "C20" and k.get("signature") == sig
                                                  for k in core.load_known_findings()):
@@ -197,11 +201,11 @@ def run_stats(chk, tmp):
                                shard=400, prelude=rd.STATS_PRELUDE)
     cmp_proc = core.CoqCompare("c20_stats_proc", rd.IMPORTS, "proc_case", rd.STATS_EQB, rd.STATS_IN, rd.STATS_OUT,
                                shard=400, prelude=rd.STATS_PRELUDE)
-    n = 45 if chk.tier == "quick" else 600
+    n = 45 if chk.tier == "quick" else 1500
     out = os.path.join(tmp, "stats_out")
     os.makedirs(out)
     lives = 0
-    hints = rd.PATTERNS[:6]
+    hints = rd.PATTERNS[:6] + ["negative"]
     for i in range(n):
         lives += bool(rd.run_stats_case(chk, cmp_node, cmp_proc, chk.rng, out, i, pattern_hint=hints[i] if i < len(hints) else None))
     if cmp_node.cases:
@@ -225,7 +229,7 @@ def run_tally(chk, tmp):
     cmp_b = core.CoqCompare("c20_build", rd.IMPORTS, rd.BUILD_FN, rd.BUILD_EQB, rd.BUILD_IN, rd.BUILD_OUT, shard=400)
     pool = ["a", "b", "job_1", "job_10", "job_2", "x y", "A", "zz", "job,comma", "é", "j-7", "k.8"]
     writable = [(0, "finished"), (1, "finished"), (2, "finished"), (-9, "finished"), (137, "finished"), (1, "canceled")]
-    n = 90 if chk.tier == "quick" else 1200
+    n = 90 if chk.tier == "quick" else 3000
     dist = {"completion_cases": 0, "all_classes": 0, "with_missing": 0, "complete": 0, "duplicate_rows": 0, "assert_rows": 0}
     directed = [
         (["a", "b", "c", "d"], [("a", 0, "finished"), ("b", 1, "finished"), ("c", 1, "canceled")]),   # all four classes
